@@ -79,9 +79,46 @@ func covering() []*dg.Design {
 	// the inheritance / override lattice: the same error name declared and mapped at API,
 	// service and method level in every combination (default type everywhere; the same
 	// custom type everywhere)
+	// pairs of errors sharing a status code: {same type, different type} x {same mapping,
+	// a header-mapped attribute on one, Body(Empty) on one, different header mappings};
+	// designed Content-Types on error responses
+	p2 := &dg.UserType{Name: "Problem2", Base: dg.Obj(
+		&dg.Field{Name: "kind", A: dg.Attr{T: str, Meta: [][]string{{"struct:error:name"}}}, Required: true},
+		dg.F("info", str), dg.F("count", integer))}
+	p2t := dg.Ref("Problem2")
+	hd := func(attr, wire string) []dg.MapEntry { return []dg.MapEntry{{Attr: attr, Wire: wire}} }
+	empty := &dg.BodySpec{Empty: true}
+	mp := &dg.Method{Name: "pairs",
+		Errors: []dg.ErrorDef{{Name: "da"}, {Name: "db"}, {Name: "dc"}, {Name: "dd"}, {Name: "pa", T: &p2t}, {Name: "pb", T: &p2t},
+			{Name: "pc", T: &p2t}, {Name: "pd", T: &p2t}, {Name: "de"}, {Name: "pe", T: &p2t}, {Name: "df"}, {Name: "pf", T: &p2t},
+			{Name: "dg", Timeout: true}, {Name: "pg", T: &p2t}, {Name: "xa"}, {Name: "xb"}, {Name: "xc"}, {Name: "xd", T: &p2t}},
+		HTTP: &dg.HTTPMap{Routes: []dg.Route{{Verb: "GET", Path: "/pairs"}},
+			Errors: []dg.ErrResponse{
+				{Name: "da", R: dg.Response{Status: 400}},
+				{Name: "db", R: dg.Response{Status: 400, Headers: hd("message", "X-Message")}},
+				{Name: "dc", R: dg.Response{Status: 401}},
+				{Name: "dd", R: dg.Response{Status: 401, Body: empty}},
+				{Name: "pa", R: dg.Response{Status: 402}},
+				{Name: "pb", R: dg.Response{Status: 402, Headers: hd("info", "X-Info")}},
+				{Name: "pc", R: dg.Response{Status: 403, Headers: hd("count", "X-Count")}},
+				{Name: "pd", R: dg.Response{Status: 403, Headers: hd("info", "X-Info")}},
+				{Name: "de", R: dg.Response{Status: 404}},
+				{Name: "pe", R: dg.Response{Status: 404}},
+				{Name: "df", R: dg.Response{Status: 409}},
+				{Name: "pf", R: dg.Response{Status: 409, Headers: hd("info", "X-Info")}},
+				{Name: "dg", R: dg.Response{Status: 410, Body: empty}},
+				{Name: "pg", R: dg.Response{Status: 410}},
+				{Name: "xa", R: dg.Response{Status: 415, ContentType: "application/xml"}},
+				{Name: "xb", R: dg.Response{Status: 416, ContentType: "text/xml"}},
+				{Name: "xc", R: dg.Response{Status: 417, ContentType: "application/vnd.goa.error+json"}},
+				{Name: "xd", R: dg.Response{Status: 417, ContentType: "application/vnd.goa.error+xml"}},
+			}}}
+	d2 := &dg.Design{Name: "cover2", Types: []*dg.UserType{p2},
+		Services: []*dg.Service{{Name: "pairs", Methods: []*dg.Method{mp}}},
+		Features: []string{"cover:same_status_pairs", "cover:error_content_type"}}
 	lat0 := latticeDesign("lattice0", latCombos(0), 0)
 	lat3 := latticeDesign("lattice3", latCombos(3), 100)
-	return []*dg.Design{d0, d1, lat0, lat3}
+	return []*dg.Design{d0, d1, d2, lat0, lat3}
 }
 
 // witnessDesigns hold the inputs that re-demonstrate the recorded findings.
